@@ -30,7 +30,36 @@ fn write(out: &Path, specs: &[Spec], args: &Args, extra: Value) {
     println!("verif_gen: {} grammars, {} rules -> {}", infos.len(), infos.iter().map(|m| m.rules.len()).sum::<usize>(), out.display());
 }
 
+/// Run the generator library in-process on one spec; digest of the emitted token stream.
+pub fn derive_tokens(spec: &Spec) -> Result<String, String> {
+    use std::str::FromStr;
+    let mut src = format!("#[grammar_inline = {:?}]\n", spec.text);
+    for o in &spec.options {
+        src.push_str(&format!("#[{}]\n", o));
+    }
+    src.push_str("struct Parser;");
+    let ts = proc_macro2::TokenStream::from_str(&src).map_err(|e| format!("lex: {}", e))?;
+    let r = std::panic::catch_unwind(|| pest_typed_generator::derive_typed_parser(ts, false, true).to_string());
+    r.map_err(|e| {
+        if let Some(s) = e.downcast_ref::<String>() {
+            s.clone()
+        } else if let Some(s) = e.downcast_ref::<&str>() {
+            s.to_string()
+        } else {
+            "panic".into()
+        }
+    })
+}
+
+fn derive_digest(spec: &Spec) -> Value {
+    match derive_tokens(spec) {
+        Ok(t) => json!({"len": t.len(), "hash": format!("{:016x}", verif_core::common::fnv(t.as_bytes()))}),
+        Err(e) => json!({"panic": e.chars().take(200).collect::<String>()}),
+    }
+}
+
 fn main() {
+    std::panic::set_hook(Box::new(|_| {}));
     let args = Args::parse();
     match args.positional.first().map(|s| s.as_str()) {
         Some("corpus") => {
@@ -50,6 +79,46 @@ fn main() {
             let v: Value = serde_json::from_str(&txt).expect("json");
             let specs: Vec<Spec> = v.as_array().expect("array of specs").iter().map(Spec::from_json).collect();
             write(Path::new(&out), &specs, &args, json!({}));
+        }
+        Some("tokens") => {
+            // token stream of the derive for every corpus grammar: one process = one sample of
+            // whatever non-determinism (hash seeds, iteration order) generation may have
+            let out = args.get("out").expect("--out").to_string();
+            let c = corpus::build(args.seed(), args.tier());
+            let mut m = serde_json::Map::new();
+            for s in &c.specs {
+                m.insert(s.id.clone(), derive_digest(s));
+            }
+            std::fs::write(&out, serde_json::to_string(&Value::Object(m)).unwrap()).expect("write tokens file");
+            println!("verif_gen: token digests of {} grammars -> {}", c.specs.len(), out);
+        }
+        Some("illformed") => {
+            // C11 (a): run the generator library on the ill-formed family in this process
+            let out = args.get("out").expect("--out").to_string();
+            let c = corpus::build(args.seed(), args.tier());
+            let mut cases: Vec<(String, String)> = ill_formed_catalogue();
+            for t in &c.rejected {
+                cases.push(("rejected_candidate".into(), t.clone()));
+            }
+            let mut rng = Rng::new(verif_core::common::sub_seed(args.seed(), "illformed"));
+            let n_mut = args.tier().pick(300, 3000);
+            let valid: Vec<verif_core::ir::Grammar> = c.specs.iter().filter(|s| s.family == "general" || s.family == "stack").filter_map(|s| verif_core::ir::Grammar::parse(&s.text).ok()).collect();
+            for _ in 0..n_mut {
+                let g = &valid[rng.below(valid.len())];
+                let (label, text) = mutate_grammar(&mut rng, g);
+                cases.push((format!("mutation.{}", label), text));
+            }
+            let mut outv = vec![];
+            for (class, text) in cases {
+                let spec = Spec::new("x", "illformed", &text);
+                let (panicked, msg, rust_ok) = match derive_tokens(&spec) {
+                    Ok(t) => (false, String::new(), syn::parse_file(&t).is_ok()),
+                    Err(e) => (true, e.chars().take(300).collect(), false),
+                };
+                outv.push(json!({"class": class, "text": text, "generator_panicked": panicked, "message": msg, "tokens_parse_as_rust": rust_ok}));
+            }
+            std::fs::write(&out, serde_json::to_string(&json!({"cases": outv})).unwrap()).expect("write");
+            println!("verif_gen: generator library run on {} ill-formed / mutated grammars -> {}", outv.len(), out);
         }
         Some("stats") => {
             let mut rng = Rng::new(args.seed());
